@@ -535,11 +535,15 @@ func c16RaceSearch(r *Run, g *Rng, procs int, tier string) error {
 		// the race detector reports a given pair of stacks once per process: many short processes
 		// processes whose trees spell out the default version get a third, random-mix round with repetitions: the
 		// re-initialisation race needs builds that are past their own initSchema() while another one re-arms it
+		explicit := p%3 == 2
+		// never both in one process: a stored unknown version followed by an explicit valid one re-arms initSchema on
+		// the unchanged tree (a consequence of the known finding) and would show up as an unlisted race pair
+		unknownVer := p%4 == 1 && !explicit
 		nr := 2
-		if p%3 == 2 || p%4 == 1 {
+		if explicit || unknownVer {
 			nr = 3 // also for the unknown-version process: rejected SetSchema calls keep arriving while others are mid-merge
 		}
-		specs = append(specs, c16GenRaceSpec(g.Fork(), nr, p%3 == 2, p%4 == 1, fmt.Sprintf("p%d", p)))
+		specs = append(specs, c16GenRaceSpec(g.Fork(), nr, explicit, unknownVer, fmt.Sprintf("p%d", p)))
 	}
 	budget, perProc := 75*time.Second, 60*time.Second
 	if tier == "thorough" {
